@@ -43,7 +43,7 @@ ASSUMPTIONS = [
 ]
 SETTINGS: Dict[str, Dict[str, Any]] = {
     "quick": {"bases": 2, "positions": "sampled", "budget_s": 90, "minimums": {"faulted_runs": 250, "nontrivial": 250}},
-    "thorough": {"bases": 12, "positions": "all", "budget_s": 600, "minimums": {"faulted_runs": 1500, "nontrivial": 1500}},
+    "thorough": {"bases": 12, "positions": "all", "budget_s": 600, "minimums": {"faulted_runs": 900, "nontrivial": 900}},
 }
 CLASSES = [
     "unknown-asset", "row-asset-differs-from-sheet", "unknown-exchange", "unknown-holder", "timestamp-without-zone", "type-not-allowed-in-table",
